@@ -158,8 +158,16 @@ pub fn fault_case(prop: &str, case: &Case, base: &RunOpts, max_points: usize) ->
     let h0 = str_hash(&serde_json::to_string(case).unwrap_or_default());
     // candidate (event, plan)
     let mut cands: Vec<(Event, String, usize)> = Vec::new();
+    // the block-filling prefix of a file-roll history is setup, not a fault target
+    let skip = match case.ops.first() {
+        Some(AbsOp::Fill { n, .. }) => *n as usize,
+        _ => 0,
+    };
     for e in &cr.events {
         let Some(i) = step_of(&cr, e.n) else { continue };
+        if i < skip {
+            continue;
+        }
         if !is_append_step(&cr.steps[i]) || !FAULT_SITES.contains(&e.site.as_str()) {
             continue;
         }
@@ -203,11 +211,43 @@ pub fn fault_case(prop: &str, case: &Case, base: &RunOpts, max_points: usize) ->
     for ci in chosen {
         let (ev, plan, si) = &cands[ci];
         let variant_b = splitmix(h0 ^ ev.n ^ 0x55) % 2 == 0;
-        let obs = fault_run(&case.cfg, &cr.steps, plan, base, *si, variant_b, &case.drain);
+        let mut obs = fault_run(&case.cfg, &cr.steps, plan, base, *si, variant_b, &case.drain);
         sub += 1;
-        if let Some(h) = &obs.out.inconclusive {
-            rep.inconclusive = Some(h.clone());
-            continue;
+        if let Some(h) = obs.out.inconclusive.clone() {
+            // A call that never returns after an injected fault is a trace of the failed call
+            // (the fault-free run of the same steps completed). It is reported only if the
+            // same call hangs again in a second run; a single timeout stays inconclusive.
+            let mut hang: Option<String> = None;
+            if h.starts_with("watchdog") {
+                let again = fault_run(&case.cfg, &cr.steps, plan, base, *si, variant_b, &case.drain);
+                if again.out.inconclusive.as_deref() == Some(h.as_str()) {
+                    hang = Some(h.clone());
+                } else if again.out.inconclusive.is_none() {
+                    obs = again;
+                }
+            }
+            if let Some(hmsg) = hang {
+                let body = json!({
+                    "kind": "fault",
+                    "property": prop,
+                    "cfg": case.cfg,
+                    "steps": cr.steps,
+                    "plan": plan,
+                    "faulted_step": si,
+                    "variant_b": variant_b,
+                    "drain": case.drain,
+                    "opts": opts_json(base),
+                    "hang_is_violation": true,
+                    "message": format!("[Hang] after the injected fault a later call never returns (twice, {} s watchdog each): {}", 120, hmsg),
+                    "trace_tail": obs.out.trace.iter().rev().take(40).rev().collect::<Vec<_>>(),
+                });
+                rep.violation = Some((format!("fault plan {} in step {} ({}): [Hang] {}", plan, si, ev.site, hmsg), body));
+                break;
+            }
+            if obs.out.inconclusive.is_some() {
+                rep.inconclusive = Some(h);
+                continue;
+            }
         }
         rep.features.insert(format!("fault_at_{}", ev.site));
         if plan.starts_with("short@") {
@@ -275,6 +315,9 @@ pub fn replay(body: &Value) -> Result<Option<String>, String> {
     let opts = opts_from_json(body.get("opts").unwrap_or(&Value::Null));
     let obs = fault_run(&cfg, &steps, &plan, &opts, si, vb, &drain);
     if let Some(h) = obs.out.inconclusive {
+        if h.starts_with("watchdog") && body.get("hang_is_violation").and_then(|x| x.as_bool()).unwrap_or(false) {
+            return Ok(Some(format!("[Hang] {}", h)));
+        }
         return Err(h);
     }
     Ok(obs.out.violation.map(|v| format!("[{:?}] {}", v.oracle, v.msg)))
